@@ -22,6 +22,7 @@ type Ctx struct {
 	R        *rec.Recorder
 	Rnd      *gen.Rand
 	Corpus   string
+	Focus    string // property id whose non-triviality rule is counted (components shared by two properties)
 }
 
 var components = map[string]func(*Ctx){}
@@ -41,6 +42,7 @@ func main() {
 	out := fs.String("out", "ops.txt", "op lines")
 	stats := fs.String("stats", "stats.json", "coverage statistics")
 	corpus := fs.String("corpus", "", "corpus directory (minimised past failures; run first)")
+	focus := fs.String("focus", "", "property id whose non-triviality rule applies")
 	replay := fs.String("replay", "", "re-execute the cases of this file instead of generating")
 	fs.Parse(os.Args[2:])
 	f, ok := components[comp]
@@ -53,7 +55,7 @@ func main() {
 		fmt.Fprintln(os.Stderr, err)
 		os.Exit(2)
 	}
-	ctx := &Ctx{Seed: *seed, Thorough: *tier == "thorough", R: r, Rnd: gen.New(*seed), Corpus: *corpus}
+	ctx := &Ctx{Seed: *seed, Thorough: *tier == "thorough", R: r, Rnd: gen.New(*seed), Corpus: *corpus, Focus: *focus}
 	if *replay != "" {
 		rp, ok := replayers[comp]
 		if !ok {
